@@ -33,7 +33,7 @@ func VerifC04_PassOpensCapacityOnlyWhenNeeded() {
 
 	stage := verifrt.Choice("node.stage", pwLaunched, pwInitialized)
 	marked := verifrt.Choice("node.markedForDeletion", 0, 1) == 1
-	alloc := verifrt.Quantity("node.cpu", 0, 16000)
+	alloc := verifrt.MilliQuantity("node.cpu", 0, 16000)
 	var kubelet []corev1.ResourceList
 	if stage == pwRegistered && verifrt.Choice("kubelet.reportsYet", 0, 1) == 0 {
 		// the node has joined but does not report its resources yet: the provider-resolved allocatable still counts
@@ -42,13 +42,13 @@ func VerifC04_PassOpensCapacityOnlyWhenNeeded() {
 	_, nc := w.addNode("node-1", "pool-1", "it-l", v1.CapacityTypeOnDemand, "zone-1", pwList(alloc), stage, kubelet...)
 	bound := resource.Quantity{}
 	if stage >= pwRegistered && verifrt.Choice("boundPod", 0, 1) == 1 {
-		bound = verifrt.Quantity("bound.cpu", 0, 16000)
+		bound = verifrt.MilliQuantity("bound.cpu", 0, 16000)
 		w.addPod("bound-1", "node-1", bound)
 	}
 	n := verifrt.Choice("pendingPods", 1, 2)
 	var cpus []resource.Quantity
 	for i := 0; i < n; i++ {
-		c := verifrt.Quantity("pending-"+strconv.Itoa(i)+".cpu", 1, 16000)
+		c := verifrt.MilliQuantity("pending-"+strconv.Itoa(i)+".cpu", 1, 16000)
 		cpus = append(cpus, c)
 		w.addPod("pending-"+strconv.Itoa(i), "", c)
 	}
